@@ -238,6 +238,49 @@ fn check_scale() -> Vec<Value> {
     out
 }
 
+/// Scale, second kind: 2^18 + 1 configured loggers under one parent, each with a level of its own, and EVERY one of them
+/// probed - at its own level (enabled) and one level more verbose (not enabled).  Routing.tla: the effective logger of a
+/// target is a function of the target's text; whatever stands for a name inside an implementation (a hash of it, a
+/// prefix of it, an index) must not make two of 262 145 different names one.
+fn check_scale_all() -> Vec<Value> {
+    let mut out = vec![];
+    let n = (1usize << 18) + 1;
+    let levels = [log::LevelFilter::Error, log::LevelFilter::Warn, log::LevelFilter::Info, log::LevelFilter::Debug, log::LevelFilter::Trace];
+    let mut b = log4rs::Config::builder();
+    let counter = Arc::new(Counter::default());
+    b = b.appender(log4rs::config::Appender::builder().build("A", Box::new(CountingAppender(counter.clone()))));
+    let mut loggers = Vec::with_capacity(n);
+    for j in 0..n {
+        loggers.push(log4rs::config::Logger::builder().additive(false).appender("A").build(format!("pool::worker{}", j), levels[j % 5]));
+    }
+    b = b.loggers(loggers);
+    let cfg = match catch(|| b.build(log4rs::config::Root::builder().build(log::LevelFilter::Off))) {
+        Ok(Ok(c)) => c,
+        Ok(Err(e)) => return vec![json!({"case": "scale", "config": {"siblings": n}, "mismatch": {"what": "build", "error": e.to_string()}})],
+        Err(p) => return vec![json!({"case": "scale", "config": {"siblings": n}, "mismatch": {"what": "build panicked", "error": p}})],
+    };
+    let logger = match catch(|| log4rs::Logger::new(cfg)) {
+        Ok(l) => l,
+        Err(p) => return vec![json!({"case": "scale", "config": {"siblings": n}, "mismatch": {"what": "Logger::new panicked", "error": p}})],
+    };
+    let all = [log::Level::Error, log::Level::Warn, log::Level::Info, log::Level::Debug, log::Level::Trace];
+    for j in 0..n {
+        let t = format!("pool::worker{}", j);
+        let own = all[j % 5];
+        let yes = logger.enabled(&log::Metadata::builder().target(&t).level(own).build());
+        let more = if j % 5 < 4 { logger.enabled(&log::Metadata::builder().target(&t).level(all[j % 5 + 1]).build()) } else { false };
+        if !yes || more {
+            out.push(json!({"case": "scale", "config": {"siblings": n, "level_of_sibling_j": "Error, Warn, Info, Debug, Trace by j mod 5"},
+                            "mismatch": {"what": "enabled() among 2^18 + 1 configured siblings", "target": t, "own_level": own.to_string(),
+                                         "enabled_at_own_level": yes, "enabled_one_level_more_verbose": more}}));
+            if out.len() >= 5 {
+                break;
+            }
+        }
+    }
+    out
+}
+
 /// `routing <cases.ndjson> <out.ndjson>`
 pub fn main(args: &[String]) {
     quiet_panics();
@@ -258,6 +301,7 @@ pub fn main(args: &[String]) {
     });
     let mut res = res;
     res.extend(check_scale());
+    res.extend(check_scale_all());
     write_ndjson(&args[1], &res);
     println!("{}", json!({"cases": cases.len(), "targets": targets.len(), "mismatches": res.len(),
                           "log_calls_per_case": targets.len() * 5}));
